@@ -4,6 +4,7 @@
 //! with optimal compression and performance characteristics.
 
 use crate::blob_store::sorted_uint_vec::SortedUintVecBuilder;
+use crate::blob_store::traits::CompressionStats;
 use crate::blob_store::zip_offset::{ZipOffsetBlobStore, ZipOffsetBlobStoreConfig};
 use crate::containers::FastVec;
 use crate::error::{Result, ZiporaError};
@@ -257,24 +258,21 @@ impl ZipOffsetBlobStoreBuilder {
 
     /// Finish building and return the completed ZipOffsetBlobStore
     pub fn finish(mut self) -> Result<ZipOffsetBlobStore> {
-        // Add final offset to mark end of content
+        // Add final offset (end of last record)
         self.offset_builder.push(self.current_offset)?;
-        
-        // Build compressed offset index
-        let _offsets = self.offset_builder.finish()?;
-        
-        // Create the blob store
-        let store = if let Some(pool) = self.pool {
-            ZipOffsetBlobStore::with_pool(self.config, pool)?
-        } else {
-            ZipOffsetBlobStore::with_config(self.config)?
+
+        // Build the compressed offset index
+        let offsets = self.offset_builder.finish()?;
+
+        let stats = CompressionStats {
+            uncompressed_size: self.stats.uncompressed_size,
+            compressed_size: self.stats.compressed_size,
+            compression_ratio: self.stats.compression_ratio(),
+            compressed_count: self.stats.record_count,
         };
 
-        // Create the final store with the built data
-        // Note: This is a placeholder implementation
-        // TODO: Implement actual data transfer from builder to store
-        
-        Ok(store)
+        // Hand content and offset index over to the store
+        ZipOffsetBlobStore::from_parts(self.config, self.content, offsets, stats, self.pool)
     }
 
     /// Get estimated final size of the blob store
